@@ -22,6 +22,8 @@
 (* so that DebuggerTrace.tla can replay the hook's lock-ordered event log through the very same    *)
 (* operators. The CPU is the index `ix` into the uninterrupted run R of DbgCpu (deterministic).    *)
 (*                                                                                                 *)
+(* "StepSwallowsTestEnd": next/stepIn/stepOut drop the runner's result (test failed / test ended).   *)
+(* "SetBreakpointsForgetsOtherFiles": setBreakpoints for one source file replaces the whole list.   *)
 (* "NextIgnoresCallDepth": next over a jsr stops as soon as pc = pc0 + 3, also inside a nested call.  *)
 (* "StepOutReadsTopOfStack": stepOut trusts the two bytes above the stack pointer (DbgAdapter).     *)
 (* Deviations (DESIGN.md section 3): with "PauseRace" in Deviations the model is implementation-   *)
@@ -34,7 +36,8 @@ EXTENDS DbgAdapter
 CONSTANTS Prog,          \* the program under debug
           Fuel,          \* bound on the run length
           Lines,         \* Lines[k] = source line of instruction k (several instructions may share a line)
-          BpSets,        \* breakpoint sets (SOURCE LINES) the client may install
+          LibLines,      \* the source lines that live in a second file (setBreakpoints works per file)
+          BpSets,        \* breakpoint sets (SOURCE LINES of ONE file) the client may install
           MaxReq,        \* number of requests the client sends after launch
           Deviations
 
@@ -48,10 +51,13 @@ VARIABLES s,      \* adapter-level state (above)
           g       \* ghost bookkeeping for the properties
 vars == <<s, req, cl, nreq, lk, g>>
 
-NoReq == [k |-> "none", b |-> {}]
+NoReq == [k |-> "none", b |-> {}, f |-> 1]
+FileOf(l) == IF l \in LibLines THEN 2 ELSE 1
+LinesOfFile(f) == {l \in {Lines[k] : k \in 1..Len(Lines)} : FileOf(l) = f}
+FilesOfReq(b) == IF b = {} THEN {1, 2} ELSE {FileOf(CHOOSE l \in b : TRUE)}
 G0 == [halt |-> [on |-> FALSE, pc |-> 0, ix |-> 0, rix |-> 0],
        curL |-> {}, arm |-> {}, stopIx |-> 0, skipped |-> FALSE, race |-> FALSE,
-       probe |-> [on |-> FALSE, ix |-> 0, L |-> {}], skippedP |-> FALSE,
+       probe |-> [on |-> FALSE, ix |-> 0, L |-> {}], skippedP |-> FALSE, swallowed |-> FALSE, forgot |-> FALSE,
        stepFrom |-> 0, stepWant |-> {}, stepBad |-> FALSE, insp |-> [on |-> FALSE, pc |-> 0, ix |-> 0, seen |-> FALSE]]
 
 (* SetBreakpointsRequestHandler: a source line -> all pc ranges assembled from it. "FirstPcOnly" and "StaleBpCopy" are  *)
@@ -87,8 +93,8 @@ Allowed == CASE cl = "running" -> {"pause", "setBps", "probe"}
              [] cl = "stopped" -> {"continue", "stepIn", "next", "stepOut", "setBps", "inspect"}
              [] OTHER -> {}
 Send == /\ req.k = "none" /\ nreq < MaxReq
-        /\ \E k \in Allowed : \E b \in (IF k = "setBps" THEN BpSets ELSE {{}}) :
-              /\ req' = [k |-> k, b |-> b]
+        /\ \E k \in Allowed : \E b \in (IF k = "setBps" THEN BpSets ELSE {{}}) : \E f \in (IF k = "setBps" THEN FilesOfReq(b) ELSE {1}) :
+              /\ req' = [k |-> k, b |-> b, f |-> f]
               /\ cl' = CASE k = "continue" -> "contwait" [] k \in {"stepIn", "next", "stepOut"} -> "stepwait" [] OTHER -> cl
         /\ nreq' = nreq + 1
         /\ UNCHANGED <<s, lk, g>>
@@ -106,9 +112,13 @@ Done == req' = NoReq /\ lk' = "free"
 
 SContinue == /\ Held /\ Idle /\ req.k = "continue" /\ s' = Resume(s) /\ Done
              /\ g' = [g EXCEPT !.halt = NoHalt] /\ UNCHANGED <<cl, nreq>>
-SSetBps   == /\ Held /\ Idle /\ req.k = "setBps" /\ s' = SetBps(s, BpPcs(req.b)) /\ Done
-             /\ g' = [g EXCEPT !.curL = req.b, !.arm = @ \cap req.b,       \* armed = installed without interruption since that read
-                               !.probe = [@ EXCEPT !.L = @ \cap req.b]]
+(* setBreakpoints replaces the breakpoints of ONE source file; with "SetBreakpointsForgetsOtherFiles" the adapter replaces all *)
+NewLines == (g.curL \ LinesOfFile(req.f)) \cup req.b
+SSetBps   == /\ Held /\ Idle /\ req.k = "setBps" /\ Done
+             /\ s' = SetBps(s, IF "SetBreakpointsForgetsOtherFiles" \in Deviations THEN BpPcs(req.b) ELSE BpPcs(NewLines))
+             /\ g' = [g EXCEPT !.curL = NewLines, !.arm = @ \cap NewLines,       \* armed = installed without interruption since that read
+                               !.probe = [@ EXCEPT !.L = @ \cap NewLines],
+                               !.forgot = @ \/ ("SetBreakpointsForgetsOtherFiles" \in Deviations /\ BpPcs(req.b) # BpPcs(NewLines))]
              /\ UNCHANGED <<cl, nreq>>
 (* the client reads the registers of the RUNNING machine (Registers scope while no stop is pending): whatever was installed *)
 (* before that reading is armed for every instruction after the instant it saw                                             *)
@@ -122,10 +132,13 @@ SPause    == /\ Held /\ Idle /\ req.k = "pause" /\ s' = PauseNow(s)
 StepWant(kind, j) == CASE kind = "stepIn" -> {StepInT(R, j)}
                        [] kind = "next" -> {NextT(Prog, R, j)}
                        [] kind = "stepOut" -> IF UnspecOut(R, j) THEN j..Len(R) ELSE {StepOutT(R, j)}
-SStep     == /\ Held /\ Idle /\ req.k \in {"stepIn", "next", "stepOut"}
+SStep     == /\ Held /\ Idle /\ req.k \in {"stepIn", "next", "stepOut"} /\ ~SEnds(R, s, Deviations)
              /\ s' = SExec(Prog, R, s, req.k, Deviations)
-             /\ g' = [g EXCEPT !.halt = NoHalt, !.stepFrom = s.ix, !.stepWant = StepWant(req.k, s.ix)]
+             /\ g' = [g EXCEPT !.halt = NoHalt, !.stepFrom = s.ix, !.stepWant = StepWant(req.k, s.ix),
+                               !.swallowed = @ \/ AtEnd(R, s.ix)]              \* the uninterrupted run ends here; this step does not
              /\ UNCHANGED <<req, cl, nreq, lk>>
+SStepEnd  == /\ Held /\ Idle /\ req.k \in {"stepIn", "next", "stepOut"} /\ SEnds(R, s, Deviations)
+             /\ s' = SEnd(s) /\ Done /\ g' = [g EXCEPT !.halt = NoHalt] /\ UNCHANGED <<cl, nreq>>
 SPRead    == /\ Held /\ s.sp = "pread" /\ s' = PauseNow(s)
              /\ IF Atomic THEN Done /\ g' = GStop(g, s') ELSE UNCHANGED <<req, lk, g>>
              /\ UNCHANGED <<cl, nreq>>
@@ -155,7 +168,7 @@ Forward == /\ Idle /\ lk # "session" /\ s.chan # <<>>
 PollTake == lk = "free" /\ s.conn /\ lk' = "poller" /\ UNCHANGED <<s, req, cl, nreq, g>>
 PollRel  == lk = "poller" /\ lk' = "free" /\ UNCHANGED <<s, req, cl, nreq, g>>
 
-Next == AMRead \/ AMCheck \/ AMExec \/ Send \/ TakeLock \/ SContinue \/ SSetBps \/ SProbe \/ SPause \/ SStep \/ SPRead \/ SPSet
+Next == AMRead \/ AMCheck \/ AMExec \/ Send \/ TakeLock \/ SContinue \/ SSetBps \/ SProbe \/ SPause \/ SStep \/ SStepEnd \/ SPRead \/ SPSet
         \/ SInsp1 \/ SInsp2 \/ SInspEnd \/ Forward \/ PollTake \/ PollRel
 Spec == Init /\ [][Next]_vars
 
@@ -169,6 +182,12 @@ NoSkippedBreakpoint == ~g.skipped
 (* the same seen from the client: after it has read the running machine's registers at instant p, no instruction after p *)
 (* on a line whose breakpoint was installed before that reading (and kept) runs without a stop there                     *)
 NoSkipAfterProbe == ~g.skippedP
+(* stepping visits exactly what the uninterrupted run executes: where that run ends (brk, failing assertion) a step ends the test too *)
+StepEndsTest == ~g.swallowed
+(* weakened only by the recorded witness: a setBreakpoints request for one file dropped breakpoints of another file (also an empty *)
+(* request for a file that has none)                                                                                              *)
+NoSkippedBreakpoint_files == NoSkippedBreakpoint \/ g.forgot
+NoSkipAfterProbe_files == NoSkipAfterProbe \/ g.forgot
 (* a completed step ends where the property says (next: behind the call; stepOut: behind the call of this subroutine) *)
 StepExact == ~g.stepBad
 
